@@ -44,11 +44,16 @@ type Case struct {
 	IdxOf     string   `json:"signerIdxOf"` // "s1" (accused), "c1" (other), "oor" (out of range)
 	RoundOff  int      `json:"roundOffset"` // evidence round = head + off
 	Index     uint32   `json:"roundIndex"`
-	Placement string   `json:"placement"` // once | x2 | x3 | two | replay
+	Proposer  string   `json:"proposer,omitempty"` // "" = c1; otherwise the fixture validator proposing the carrying block (the accused itself)
+	Placement string   `json:"placement"`          // once | x2 | x3 | two | replay
 }
 
 func (c Case) String() string {
-	return fmt.Sprintf("%s/%s signs=[%s] type=%d idx=%s round%+d ri=%d %s", c.State, c.Cfg, strings.Join(c.Signs, ","), c.VoteType, c.IdxOf, c.RoundOff, c.Index, c.Placement)
+	p := ""
+	if c.Proposer != "" {
+		p = " proposer=" + c.Proposer
+	}
+	return fmt.Sprintf("%s/%s signs=[%s] type=%d idx=%s round%+d ri=%d %s%s", c.State, c.Cfg, strings.Join(c.Signs, ","), c.VoteType, c.IdxOf, c.RoundOff, c.Index, c.Placement, p)
 }
 
 type world struct {
@@ -207,9 +212,16 @@ func dls(v *state.Validator) string {
 	return strings.Join(out, ",")
 }
 
+func (w *world) proposerOf(c Case) common.Address {
+	if c.Proposer == "" {
+		return w.f.Val("c1").Main
+	}
+	return w.f.Val(c.Proposer).Main
+}
+
 // control returns the snapshot after one evidence-free block built on the case's start state (cached per state).
 func (w *world) control(c Case, n *chainx.Node) snap {
-	key := c.State + "/" + c.Cfg
+	key := c.State + "/" + c.Cfg + "/" + c.Proposer
 	w.cmu.Lock()
 	defer w.cmu.Unlock()
 	if s, ok := w.ctrl[key]; ok {
@@ -217,7 +229,7 @@ func (w *world) control(c Case, n *chainx.Node) snap {
 	}
 	ctl := n.Fork()
 	defer ctl.Close()
-	if _, err := ctl.Build(w.f.Val("c1").Main, nil); err != nil {
+	if _, err := ctl.Build(w.proposerOf(c), nil); err != nil {
 		panic("harness: control block fails: " + err.Error())
 	}
 	s := w.take(ctl)
@@ -266,7 +278,7 @@ func (w *world) run(c Case) string {
 	}
 	var built *chainx.Built
 	var berr error
-	if m, where := mc.CatchStack(func() { built, berr = n.Build(w.f.Val("c1").Main, nil) }); m != "" {
+	if m, where := mc.CatchStack(func() { built, berr = n.Build(w.proposerOf(c), nil) }); m != "" {
 		report(fmt.Sprintf("builder panics while processing evidence at %s", where), m)
 		return "panic"
 	}
@@ -449,6 +461,12 @@ func (w *world) cases(quick bool) []Case {
 		for _, cfg := range []string{"base"} {
 			for _, s := range seqs {
 				out = append(out, Case{State: st, Cfg: cfg, Signs: s, VoteType: staking.Precommit, IdxOf: "s1", RoundOff: 0, Index: 1, Placement: "once"})
+				// the accused proposes the carrying block itself (its record is also the proposer record of the
+				// rewards step); only where the accused is a chamber validator, i.e. can propose. Quick: 1- and 2-element
+				// sequences, thorough: all
+				if targetOf(st) == "s1" && st != "expelled" && (!quick || len(s) <= 2) {
+					out = append(out, Case{State: st, Cfg: cfg, Signs: s, VoteType: staking.Precommit, IdxOf: "s1", RoundOff: 0, Index: 1, Placement: "once", Proposer: "s1"})
+				}
 			}
 			// dimension sweeps around every pair of genuine signatures
 			for _, a := range poolGenuine {
